@@ -19,6 +19,14 @@ CLAIMED = {
             "Correspondence of the Lean model of instrs.rs parsing/printing with the real tcompile/show_comp/read_*/show_* on every token and random tables, judged against the generator's own table; malformed stream compared code-vs-model. Proof level pending BB/Props/C13.",
             "Trusted: Lean compiler for the driver, vlib orchestration, rustc.",
             "Lean 4 model + differential correspondence + generator oracle", "5/C13"),
+    "C04": ("exploration",
+            "Correspondence of the Lean model of reason.rs (whole cant_reach) with the real py_cant_halt/blank/spin_out over exhaustive 2x2, slices or all of 3x2/2x3, random and named programs on a depth ladder; every 'refuted' answer of the real code judged by an L0 run; violations attributed to findings F1/F2 by counterfactual re-run of the model with repair switches. Proof level pending BB/Props/C04.",
+            "Trusted: Lean compiler for the driver, vlib orchestration, rustc; oracle budget (5e3 quick / 5e4 thorough base steps).",
+            "Lean 4 model + differential correspondence + L0 oracle + counterfactual attribution", "5/C04"),
+    "C07": ("exploration",
+            "Correspondence of the Lean model of quick_term_or_rec (HeadTape, compare_take, aligns_with, reset schedule) with the real code on normal-form programs and a limit ladder; 'recur' verdicts confirmed by an independent brute-force translated-cycle certificate on L0 cells, 'spinout'/'undefined' by the L0 run. Proof level pending BB/Props/C07.",
+            "Trusted: Lean compiler for the driver and oracle, vlib orchestration, rustc.",
+            "Lean 4 model + differential correspondence + L0 certificate search", "5/C07"),
 }
 
 ALL = ["C%02d" % i for i in range(1, 19)]
